@@ -76,9 +76,14 @@ var osFileMode = "sim"
 func diskFn(name string) string {
 	if osFileMode == "real" {
 		switch name {
-		case "Open", "Create", "OpenFile", "ReadFile", "WriteFile", "Remove", "Rename":
+		case "TempFile":
+			return "verifsim.CreateTempReal"
+		case "Open", "Create", "OpenFile", "ReadFile", "WriteFile", "Remove", "Rename", "CreateTemp":
 			return "verifsim." + name + "Real"
 		}
+	}
+	if name == "TempFile" {
+		return "verifsim.CreateTemp"
 	}
 	return "verifsim." + name
 }
@@ -438,8 +443,8 @@ func rewriteFile(fc *fileCtx, pkg *types.Package) {
 				removed["os"]++
 				sum.DiskSites++
 			} else if sel, name, pkg, ok := isAnyPkgCall(x.Fun, map[string][]string{
-				"os":        {"OpenFile", "Lstat", "ReadFile", "WriteFile", "Remove", "Rename"},
-				"io/ioutil": {"ReadFile", "WriteFile"},
+				"os":        {"OpenFile", "Lstat", "ReadFile", "WriteFile", "Remove", "Rename", "CreateTemp"},
+				"io/ioutil": {"ReadFile", "WriteFile", "TempFile"},
 			}); ok {
 				fc.replace(sel.Pos(), sel.End(), diskFn(name))
 				removed[pkg]++
